@@ -146,6 +146,9 @@ class Universe:
             "BL": {"bound": {"r": "gen", "g": "list", "alias": True, "args": [{"r": "cls", "n": "int"}]}, "constraints": []},
             "BO": {"bound": {"r": "union", "style": "optional", "ms": [{"r": "cls", "n": "str"}, {"r": "none", "sp": False}]},
                    "constraints": []},
+            # a bound that is itself a bare generic (it gets its own implicit parameters: list -> list[Any])
+            "BB": {"bound": {"r": "gen", "g": "list", "alias": False, "args": None}, "constraints": []},
+            "BD": {"bound": {"r": "gen", "g": "dict", "alias": True, "args": None}, "constraints": []},
             "C": {"bound": None, "constraints": [{"r": "cls", "n": "str"}, {"r": "cls", "n": "bytes"}]},
             "CL": {"bound": None, "constraints": [
                 {"r": "gen", "g": "list", "alias": False, "args": None},
@@ -176,7 +179,7 @@ class Universe:
         b["Final"] = (Final, None, 1, False, False)
         b["InitVar"] = (InitVar, None, 1, False, False)
         self.user_generic_params = {"G1": ["T"], "G2": ["T", "B"], "G3": ["C", "BL"], "G4": ["CL"], "G5": ["BO", "U"],
-                                    "G6": ["CU", "T"]}
+                                    "G6": ["CU", "T"], "G7": ["BB", "BD"], "G8": ["BD"]}
         self._builder = None
 
     def finish(self, builder):
@@ -660,7 +663,7 @@ SCALARS = ["int", "str", "bytes", "bool", "float"]
 CLASSES = [*SCALARS, "A#1", "A#2", "Bm", "E#1", "E#2", "Color", "IE"]
 CONTAINERS1 = ["list", "set", "frozenset", "deque", "Iterable", "Sequence", "Counter", "Pattern"]
 CONTAINERS2 = ["dict", "defaultdict", "OrderedDict", "Mapping"]
-USER_GENERICS = ["G1", "G2", "G3", "G4", "G5", "G6"]
+USER_GENERICS = ["G1", "G2", "G3", "G4", "G5", "G6", "G7", "G8"]
 LOADABLE_GENERICS = {"list", "set", "frozenset", "deque", "dict", "defaultdict", "Iterable", "Sequence", "Mapping",
                      *USER_GENERICS}
 
